@@ -1,7 +1,8 @@
 (* R10, C10: every chain of replaced-ID records that resolves in the store before a
    fault-free request step still resolves in the store that a process stop after
-   ANY number of the step's persistence calls leaves - provided the step deletes
-   nothing (no Destroy, Start accepts the presented record, no clean-up is due).
+   ANY number n of the step's persistence calls leaves - provided the events that
+   the stop keeps (the first n calls) contain no deletion: the stop precedes any
+   Destroy, invalidation by Start or clean-up that the step would go on to make.
 
    The pieces: (1) nothing stored disappears (no deletion in the log); (2) each
    replaced-ID record of the chain is immutable (LXIx_step of LineageG2.v, at any
@@ -110,14 +111,15 @@ Section Stop.
   Hypothesis Hgd : graves_drawn (w_st w).
   Hypothesis Hpl : rq_plan r = [].
   Hypothesis Hcr : rq_crash r = Some n.
-  Hypothesis Hnd : no_deletes (ob_evs (snd (step w (HReq (nocrash r))))).
+  (* the events that the stop keeps contain no deletion (what comes later never happened) *)
+  Hypothesis Hnd : no_deletes (ev_prefix (ob_evs (snd (step w (HReq (nocrash r))))) n).
 
   Let s0 := w_st w.
   Let s' := w_st (fst (step w (HReq r))).
   Let pre := ev_prefix (ob_evs (snd (step w (HReq (nocrash r))))) n.
 
   Lemma pre_nd : Forall (fun e => CrashFault.is_delete e = false) pre.
-  Proof. apply CrashFault13.ev_prefix_Forall. exact Hnd. Qed.
+  Proof. exact Hnd. Qed.
 
   Lemma sg_eq : (store s', graves s') = fold_left apply_ev pre (store s0, graves s0).
   Proof. exact (crash_sg w r n Hcr). Qed.
